@@ -866,6 +866,9 @@ func (db *DB) Close(ctx context.Context) (err error) {
 	db.f = nil
 	db.opened = false
 	db.rtx = nil
+	// The WAL may be checkpointed, restarted or truncated by anyone while we are
+	// closed: what the last sync knew about it must not survive a reopen.
+	db.syncState = syncState{}
 	db.mu.Unlock()
 
 	if sqlDB != nil {
